@@ -52,17 +52,77 @@ fn interesting_frame(bt: &str) -> String {
     "?".to_string()
 }
 
+// Raw return addresses of the current call stack (cheap: unwinding only, no symbol lookup),
+// relative to a function of this executable so that they are the same in every worker process.
+unsafe extern "C" {
+    fn _Unwind_Backtrace(cb: extern "C" fn(*mut u8, *mut u8) -> i32, arg: *mut u8) -> i32;
+    fn _Unwind_GetIP(ctx: *mut u8) -> usize;
+}
+struct Ips {
+    n: usize,
+    v: [usize; 20],
+}
+extern "C" fn ip_cb(ctx: *mut u8, arg: *mut u8) -> i32 {
+    let s = unsafe { &mut *(arg as *mut Ips) };
+    if s.n < s.v.len() {
+        s.v[s.n] = unsafe { _Unwind_GetIP(ctx) };
+        s.n += 1;
+        0
+    } else {
+        5 // _URC_END_OF_STACK
+    }
+}
+fn stack_key() -> String {
+    let mut ips = Ips { n: 0, v: [0; 20] };
+    unsafe { _Unwind_Backtrace(ip_cb, &mut ips as *mut Ips as *mut u8) };
+    let base = worker_main as usize;
+    let mut k = String::new();
+    for i in 0..ips.n {
+        // frames outside this executable (libc start-up) move with ASLR: not part of the key
+        let d = ips.v[i].wrapping_sub(base) as isize;
+        if d.unsigned_abs() < (1 << 31) {
+            k.push_str(&format!("{:x}.", d));
+        }
+    }
+    k
+}
+
+/// the arrow/parquet function a large request comes from.  Symbolising is expensive (seconds on
+/// a loaded machine, and it has to be redone in every fresh worker), so results are cached on
+/// disk by call stack: each distinct stack is symbolised once per run.
+fn alloc_site() -> String {
+    let key = stack_key();
+    let cache = std::env::var("C08_SITE_CACHE").unwrap_or_default();
+    if !cache.is_empty() {
+        if let Ok(txt) = std::fs::read_to_string(&cache) {
+            for l in txt.lines() {
+                if let Some((k, site)) = l.split_once('\t') {
+                    if k == key {
+                        return site.to_string();
+                    }
+                }
+            }
+        }
+    }
+    eprintln!("C08-ALLOC-PENDING");
+    let bt = std::backtrace::Backtrace::force_capture().to_string();
+    let site = interesting_frame(&bt);
+    if !cache.is_empty() {
+        use std::io::Write as _;
+        if let Ok(mut f) = std::fs::OpenOptions::new().create(true).append(true).open(&cache) {
+            let _ = writeln!(f, "{}\t{}", key, site);
+        }
+    }
+    site
+}
+
 fn note(size: usize) {
     let prev = MAX_REQ.fetch_max(size, Ordering::Relaxed);
     if size > SOFT.load(Ordering::Relaxed) && size > prev {
         IN_HOOK.with(|f| {
             if !f.get() {
                 f.set(true);
-                // symbolising can take many seconds on a loaded machine: tell the parent not to
-                // mistake it for a hang
-                eprintln!("C08-ALLOC-PENDING {}", size);
-                let bt = std::backtrace::Backtrace::force_capture().to_string();
-                let site = interesting_frame(&bt);
+                let site = alloc_site();
                 if let Ok(mut s) = SITE.try_lock() {
                     *s = site.clone();
                 }
@@ -218,11 +278,7 @@ fn install_panic_hook() {
 /// worker process: one case line in, one `answer \t max-request \t alloc-site \t panic-site` out
 pub fn worker_main() {
     install_panic_hook();
-    // warm the symbol table used by the allocation hook off the timed path
-    std::thread::spawn(|| {
-        IN_HOOK.with(|f| f.set(true));
-        let _ = std::backtrace::Backtrace::force_capture().to_string();
-    });
+
     let stdin = std::io::stdin();
     let stdout = std::io::stdout();
     let mut line = String::new();
@@ -255,6 +311,15 @@ pub fn worker_main() {
 // only the watchdog itself — `HANG` — reports work unrelated to input size)
 pub const SLOW_MS: u128 = 1_000_000;
 
+/// one cache file per harness run (parent pid)
+fn site_cache_path() -> String {
+    format!("{}/c08-sites-{}.txt", std::env::temp_dir().display(), std::process::id())
+}
+
+pub fn remove_site_cache() {
+    let _ = std::fs::remove_file(site_cache_path());
+}
+
 pub struct Outcome {
     pub ms: u128,
     pub answer: String,
@@ -278,6 +343,7 @@ impl Worker {
         let exe = std::env::current_exe().expect("current_exe");
         let mut child = Command::new(exe)
             .arg("worker")
+            .env("C08_SITE_CACHE", site_cache_path())
             .stdin(Stdio::piped())
             .stdout(Stdio::piped())
             .stderr(Stdio::piped())
